@@ -596,6 +596,14 @@ func init() {
 			sb.WriteString(untranslatable("openFilesToChanTree"))
 		}
 
+		// control tree of OpenReaderToChan (the standard-input reader; executed by Model/C06Exec.lean)
+		c.Fingerprint("pkg/extractor/batchers/readerBatcher.go", "OpenReaderToChan")
+		if f := c.Func("pkg/extractor/batchers/readerBatcher.go", "OpenReaderToChan"); f != nil && f.Body != nil {
+			fmt.Fprintf(&sb, "/-- control tree of `OpenReaderToChan` (pkg/extractor/batchers/readerBatcher.go) -/\ndef openReaderToChanTree : Ctl :=\n  %s\n\n", c.c06Tree(f.Body.List))
+		} else {
+			sb.WriteString(untranslatable("openReaderToChanTree"))
+		}
+
 		// BuildBatcherFromArguments: the usage checks and the three-way input selection (every if of the body)
 		c.Fingerprint("cmd/helpers/extractorBuilder.go", "BuildBatcherFromArguments")
 		if f := c.Func("cmd/helpers/extractorBuilder.go", "BuildBatcherFromArguments"); f != nil && f.Body != nil {
